@@ -172,9 +172,14 @@ func c11(c *core.Ctx) {
 			}
 			var hdrCall *ssa.Call
 			for _, call := range core.CallsIn(hc.Fn, func(call *ssa.Call, ci core.CallInfo) bool {
-				return ci.Static != nil && core.PkgIs(ci.Static, "httpgrpc") && ci.Static.Signature.Results().Len() == 3 && len(call.Call.Args) == 2 && core.TypeStr(call.Call.Args[1].Type()) == "net/http.Header"
+				_, is := headerDecoderCall(call)
+				return is
 			}) {
 				hdrCall = call
+			}
+			hdrErrIdx := -1
+			if hdrCall != nil {
+				hdrErrIdx, _ = headerDecoderCall(hdrCall)
 			}
 			if selCall == nil {
 				c.Fail(key+":codec-selector", hc.Fn.Pos(), "no codec selection from the content type")
@@ -211,7 +216,7 @@ func c11(c *core.Ctx) {
 				}
 				if hdrCall != nil {
 					c.Check(core.GuardedBy(hs, func(f core.Fact) bool {
-						return f.Op == token.EQL && core.IsNilConst(f.Y) && core.OriginIs(f.X, func(o ssa.Value) bool { cr, idx, ok := core.CallResult(o); return ok && cr == hdrCall && idx == 2 })
+						return f.Op == token.EQL && core.IsNilConst(f.Y) && core.OriginIs(f.X, func(o ssa.Value) bool { cr, idx, ok := core.CallResult(o); return ok && cr == hdrCall && idx == hdrErrIdx })
 					}), k+":headers", hs.Pos(), "dominated by headerErr == nil", "a handler can run although the request headers did not decode")
 				}
 			}
@@ -231,7 +236,7 @@ func c11(c *core.Ctx) {
 			}
 			if hdrCall != nil {
 				gates = append(gates, gate{"headers", 400, func(f core.Fact) bool {
-					return f.Op == token.NEQ && core.IsNilConst(f.Y) && core.OriginIs(f.X, func(o ssa.Value) bool { cr, idx, ok := core.CallResult(o); return ok && cr == hdrCall && idx == 2 })
+					return f.Op == token.NEQ && core.IsNilConst(f.Y) && core.OriginIs(f.X, func(o ssa.Value) bool { cr, idx, ok := core.CallResult(o); return ok && cr == hdrCall && idx == hdrErrIdx })
 				}})
 			}
 			for _, g := range gates {
@@ -337,7 +342,11 @@ func c11(c *core.Ctx) {
 				f := ef.Fact
 				if f.Op == token.EQL && core.IsNilConst(f.Y) && core.OriginIs(f.X, func(o ssa.Value) bool {
 					cr, idx, ok := core.CallResult(o)
-					return ok && idx == 2 && core.InfoOf(&cr.Call).Static != nil && core.InfoOf(&cr.Call).Static.Signature.Results().Len() == 3
+					if !ok {
+						return false
+					}
+					ei, is := headerDecoderCall(cr)
+					return is && idx == ei
 				}) {
 					m, _, ok2 := core.CountRange(core.Loc{B: ef.B.Succs[ef.Succ], Idx: 0}, isH, nil)
 					if ok2 {
@@ -475,6 +484,13 @@ func c11(c *core.Ctx) {
 				}
 				for _, o := range core.Origins(cc.Value) {
 					src, idx, ok := core.CallResult(o)
+					// a func kept in a field of a struct the package function returns by value (results packed into a result struct)
+					fieldIdx := -1
+					if !ok {
+						if s2, i2, f2, ok2 := core.ResultField(o); ok2 {
+							src, idx, ok, fieldIdx = s2, i2, true, f2
+						}
+					}
 					if !ok {
 						continue
 					}
@@ -491,9 +507,19 @@ func c11(c *core.Ctx) {
 							continue
 						}
 						mayNil := false
-						for _, ro := range core.Origins(r.Results[idx]) {
-							if core.IsNilConst(ro) {
+						rv := r.Results[idx]
+						if fieldIdx >= 0 {
+							fv, zero, okF := structLitField(rv, fieldIdx)
+							if !okF || zero {
 								mayNil = true
+							}
+							rv = fv
+						}
+						if rv != nil {
+							for _, ro := range core.Origins(rv) {
+								if core.IsNilConst(ro) {
+									mayNil = true
+								}
 							}
 						}
 						if !mayNil {
@@ -542,6 +568,9 @@ func c11(c *core.Ctx) {
 					base, fld, isF := core.FieldOf(lv)
 					if !isF {
 						continue
+					}
+					if core.ResultPart(lv) != nil {
+						continue // a field of a package function's result struct: decided with the function results above
 					}
 					tn := core.NamedOf(base.Type())
 					nt := p.Named("httpgrpc", tn)
@@ -822,7 +851,14 @@ func c11(c *core.Ctx) {
 			if hc.Stream {
 				continue
 			}
-			for _, a := range hc.Fn.AnonFuncs {
+			lits := append([]*ssa.Function{}, hc.Fn.AnonFuncs...)
+			// the callback may be built by a single-use factory function of the package (unaryDecoder(codec, req))
+			for _, h := range core.HelperCallsOf(hc.Fn) {
+				if h.Callee != nil && h.Callee.Blocks != nil && core.InlineSite[h.Callee] != nil {
+					lits = append(lits, h.Callee.AnonFuncs...)
+				}
+			}
+			for _, a := range lits {
 				if len(a.Params) != 1 || a.Signature.Results().Len() != 1 || !core.IsErrorType(a.Signature.Results().At(0).Type()) {
 					continue
 				}
@@ -859,7 +895,14 @@ func c11(c *core.Ctx) {
 				c.Check(okAll, core.FuncName(a)+":always-decodes", um.Pos(), "the callback reports success only after codec.Unmarshal ran", "the decode callback can report success without calling the codec (e.g. a shortcut for some bodies): an undecodable request for that codec is handled as if it were valid")
 				// the bytes decoded are the request body read in full
 				okBody := core.OriginIs(um.Call.Args[0], func(o ssa.Value) bool {
-					return core.IsResultOf(o, 0, "io/ioutil.ReadAll", "io.ReadAll")
+					if core.IsResultOf(o, 0, "io/ioutil.ReadAll", "io.ReadAll") {
+						return true
+					}
+					// captured from a factory's parameter: the argument of the factory's only call
+					if r := core.ResolveFree(o); r != o {
+						return core.OriginIs(r, func(o2 ssa.Value) bool { return core.IsResultOf(o2, 0, "io/ioutil.ReadAll", "io.ReadAll") })
+					}
+					return false
 				})
 				c.Check(okBody, core.FuncName(a)+":decodes-request-body", um.Pos(), "decodes the bytes read from the request body", "the decode callback does not decode the request body")
 			}
@@ -999,4 +1042,61 @@ func codecTypes(p *core.Prog) []*types.Named {
 		}
 	}
 	return out
+}
+
+// headerDecoderCall: call is a call of the package's request-headers→context
+// decoder — a function of httpgrpc taking (context, http.Header) whose last
+// result is an error (the context and its cancel function travel in the results
+// before it, or packed into one result struct); returns the index of the error.
+func headerDecoderCall(call *ssa.Call) (int, bool) {
+	ci := core.InfoOf(&call.Call)
+	if ci.Static == nil || !core.PkgIs(ci.Static, "httpgrpc") || len(call.Call.Args) != 2 || core.TypeStr(call.Call.Args[1].Type()) != "net/http.Header" {
+		return -1, false
+	}
+	res := ci.Static.Signature.Results()
+	if res.Len() < 2 || !core.IsErrorType(res.At(res.Len()-1).Type()) {
+		return -1, false
+	}
+	return res.Len() - 1, true
+}
+
+// structLitField: v is a struct value built by a composite literal in its
+// function (a load of the literal's cell); the value stored to field i, or
+// zero == true when the literal leaves the field out. ok is false for anything
+// else.
+func structLitField(v ssa.Value, i int) (val ssa.Value, zero bool, ok bool) {
+	u, isU := v.(*ssa.UnOp)
+	if !isU || u.Op != token.MUL {
+		return nil, false, false
+	}
+	al, isAl := u.X.(*ssa.Alloc)
+	if !isAl {
+		return nil, false, false
+	}
+	n := 0
+	for _, r := range core.Refs(al) {
+		fa, isFA := r.(*ssa.FieldAddr)
+		if !isFA {
+			if _, isLoad := r.(*ssa.UnOp); isLoad {
+				continue
+			}
+			if _, isDbg := r.(*ssa.DebugRef); isDbg {
+				continue
+			}
+			return nil, false, false
+		}
+		if fa.Field != i {
+			continue
+		}
+		for _, rr := range core.Refs(fa) {
+			if st, isSt := rr.(*ssa.Store); isSt && st.Addr == ssa.Value(fa) {
+				val = st.Val
+				n++
+			}
+		}
+	}
+	if n == 0 {
+		return nil, true, true
+	}
+	return val, false, n == 1
 }
